@@ -151,7 +151,8 @@ var funcmap = FuncMap{
 		if v, ok := v.(bool); ok {
 			return []Attribute{{Name: k, BoolVal: &v}}
 		}
-		if _, ok := v.(Nil); ok {
+		if _, ok := v.(Nil); ok || v == nil {
+			// null, or an undefined variable (nil interface): the attribute is omitted
 			b := false
 			return []Attribute{{Name: k, BoolVal: &b}}
 		}
